@@ -42,10 +42,7 @@ impl<C: Config, Q: Query> Snapshot<C, Q> {
             caller.kind(),
             CallerKind::RepairFirewall
                 | CallerKind::BackwardProjectionPropagation
-        ) && self
-            .pending_backward_projection()
-            .await
-            .is_some_and(|x| x.0 == caller.timestamp())
+        ) && self.pending_backward_projection().await.is_some()
         {
             return FastPathResult::ToSlowPath(SlowPath::BaackwardProjection);
         }
